@@ -101,6 +101,7 @@ template <class Mesh> void HistRun<Mesh>::op_clear(R &r, const Op &q) {
     bool cp = q.a[0] & 1;
     r.mesh->clear(cp);
     r.m.clear();
+    r.lat_v.clear(); r.lat_c.clear();
     for (auto &mp : r.props) {
         if (!mp.attached) continue;
         if (mp.kind != KM) mp.val.clear();   // the mesh entity itself survives clear()
